@@ -90,7 +90,7 @@ func discover() []setting {
 	var ss []setting
 	for i := 0; i < t.NumField(); i++ {
 		f := t.Field(i)
-		y := f.Tag.Get("yaml")
+		y := strings.Split(f.Tag.Get("yaml"), ",")[0] // the key is the tag up to the first comma (options such as omitempty follow)
 		k := f.Type.Kind()
 		if y == "" || (k != reflect.Int && k != reflect.String && k != reflect.Bool) {
 			continue
